@@ -45,6 +45,7 @@ def gen_scenarios(tier, seed):
             hist.append({"n": n, "panics": panics})
         scs.append({"kind": "pool", "id": f"r{k}", "history": hist,
                     "use": rnd.choice(["par_extend", "par_extend", "broadcast"]),
+                    "reuse_vec": rnd.random() < 0.5,
                     "spurious": rnd.choice([0, 0, 1, 2]),
                     "schedule": {"source": "random", "seed": rnd.randrange(1 << 30),
                                  "switch": rnd.choice([50, 200, 400, 700, 1000])}})
